@@ -1,4 +1,4 @@
-From Verif Require Import Base.Sx Model.C15Entry.
+From Verif Require Import Base.Sx Model.C15Full.
 From Coq Require Import Extraction ExtrOcamlBasic.
-Definition run := c15_entry.
+Definition run := c15_full_entry.
 Extraction "model.ml" run.
